@@ -1,7 +1,7 @@
-CONSTANTS NH = 5  MaxPrem = 2  MaxJ = 4  MaxOps = 6
+CONSTANTS NH = 3  MaxPrem = 2  MaxOps = 5  Deviation = FALSE
 INIT Init
 NEXT Next
 CONSTRAINT Bound
-VIEW View
+VIEW ViewGen
 ACTION_CONSTRAINT Edge
 CHECK_DEADLOCK FALSE
